@@ -1,1 +1,239 @@
-/-! Property theorems for C08 (statements + proofs by reference to `Proof/`). Not built yet. -/
+import GraafVerif.Proof.Fw
+import GraafVerif.Proof.FwDesc
+/-!
+# C08 — Floyd-Warshall returns the exact all-pairs matrix
+
+"For every arc-weighted digraph without negative-weight circuits,
+`FloydWarshall::distances()[(u, v)]` is the minimum weight of a walk from `u` to `v`, `0` on the
+diagonal, and `isize::MAX` exactly when `v` is unreachable from `u`.  Row `s` therefore equals
+BellmanFordMoore from `s`, and on non-negative weights equals Dijkstra from `s`."
+
+Only statements and proofs by reference live here.  `Fw.distances` (Model/Fw.lean) is the literal
+model of `FloydWarshall::distances` (flat matrix, `i` outermost, in place), `Fw.get` the
+`(u, v)` index of `DistanceMatrix`; `none` is `isize::MAX`.  The digraph is any `WGraph` that is
+well formed (`WF`: arcs join vertices `< n`) and has at most one weight per ordered pair
+(`Functional`: rows of `AdjacencyListWeighted` are maps).  Path sums are unbounded `Int`s
+(overflow is excluded by the property, DESIGN §4.1).
+-/
+namespace GraafVerif.C08
+open GraafVerif GraafVerif.Fw
+
+/-! ## Full statement -/
+
+/-- Full statement of C08. -/
+def Statement : Prop :=
+  ∀ g : WGraph, g.WF → g.Functional → g.NoNegCycle →
+    ∀ u v, u < g.n → v < g.n →
+      -- the pair index reads the flat vector row-major
+      get g.n (distances g) u v = ((distances g)[u * g.n + v]?).getD none ∧
+      -- a finite entry is exactly the minimum walk weight
+      (∀ d, get g.n (distances g) u v = some d ↔ IsMinDist g [u] v d) ∧
+      -- `isize::MAX` exactly when unreachable
+      (get g.n (distances g) u v = none ↔ ¬ WReachFrom g [u] v) ∧
+      -- zero diagonal
+      get g.n (distances g) u u = some 0 ∧
+      -- row `u` equals ANY exact single-source distance vector (what C07 proves of
+      -- BellmanFordMoore and C03 of Dijkstra on non-negative weights)
+      (∀ r : List (Option Int), r.length = g.n →
+        (∀ x, x < g.n → ∀ d, r[x]? = some (some d) ↔ IsMinDist g [u] x d) →
+        row g.n (distances g) u = r)
+
+/-! ## P0 -/
+
+/-- `dist[(u, v)]` reads the flat vector at `u * order + v` (row-major: `u` selects the row). -/
+theorem fw_index (n : Nat) (m : Mat) (u v : Nat) : get n m u v = (m[u * n + v]?).getD none := rfl
+
+/-- … for in-range pairs that index is in bounds and determines the pair (no two cells alias;
+in particular `(u, v)` and `(v, u)` are different cells for `u ≠ v`), and the matrix the
+algorithm returns has exactly `order * order` cells. -/
+theorem fw_index_inj {n u v u' v' : Nat} (hu : u < n) (hv : v < n) (hv' : v' < n) :
+    u * n + v < n * n ∧ (u * n + v = u' * n + v' → u = u' ∧ v = v') :=
+  ⟨idx_lt hu hv, idx_inj hv hv'⟩
+
+theorem fw_length (g : WGraph) (hwf : g.WF) : (distances g).length = g.n * g.n :=
+  (InvK.loopTo (init_invK hwf) g.n (Nat.le_refl _)).1
+
+/-- Every finite entry `(u, v)` is the weight of a walk `u → v` — at EVERY point of the loop
+nest (`stateAt g I J Kc`: outer iterations `0..I`, rows `0..J` of iteration `I` and cells
+`0..Kc` of row `J` done), with or without negative circuits.  More precisely the walk's
+interior vertices are `≤ I`. -/
+theorem fw_entries_walks (g : WGraph) (hwf : g.WF) {I J Kc : Nat} (hI : I < g.n) (hJ : J < g.n)
+    (hKc : Kc ≤ g.n) {u v : Nat} (hu : u < g.n) (hv : v < g.n) {x : Int}
+    (h : get g.n (stateAt g I J Kc) u v = some x) :
+    WalkIn g (I+1) u v x ∧ ∃ k, WWalk g u v k x :=
+  have hw := (stateAt_invK hwf hI hJ hKc).2 u v hu hv x h
+  ⟨hw, hw.toWWalk⟩
+
+/-- What "path sums fit" is about: the only sums the loop ever forms — `s = a + b` with `a` read
+at the start of row `J` and `b` read when cell `(J, Kc)` is reached — are weights of walks
+`J → I → Kc` of the digraph (interior `≤ I`). -/
+theorem fw_sums_walks (g : WGraph) (hwf : g.WF) {I J Kc : Nat} (hI : I < g.n) (hJ : J < g.n)
+    (hKc : Kc < g.n) {a b : Int} (ha : get g.n (stateAt g I J 0) J I = some a)
+    (hb : get g.n (stateAt g I J Kc) I Kc = some b) : WalkIn g (I+1) J Kc (a + b) :=
+  have h1 := (stateAt_invK hwf hI hJ (Nat.zero_le _)).2 J I hJ hI a ha
+  have h2 := (stateAt_invK hwf hI hJ (Nat.le_of_lt hKc)).2 I Kc hI hKc b hb
+  h2.append h1 (Nat.lt_succ_self I)
+
+/-- `stateAt` enumerates the states of the loop nest and ends in `distances`. -/
+theorem fw_stateAt_end (g : WGraph) (hn : 0 < g.n) : stateAt g (g.n - 1) (g.n - 1) g.n = distances g :=
+  stateAt_end g hn
+
+/-- The result: every finite entry is a walk weight (no hypothesis on circuits). -/
+theorem fw_result_walks (g : WGraph) (hwf : g.WF) {u v : Nat} (hu : u < g.n) (hv : v < g.n) {x : Int}
+    (h : get g.n (distances g) u v = some x) : ∃ k, WWalk g u v k x :=
+  ((InvK.loopTo (init_invK hwf) g.n (Nat.le_refl _)).2 u v hu hv x h).toWWalk
+
+/-! ## P1 -/
+
+/-- The textbook invariant, on the IN-PLACE loop: after the outer iterations for the
+intermediate vertices `0..K` (i.e. after the iteration for `i = K-1`), entry `(u, v)` is exactly
+the minimum weight of a walk `u → v` whose interior vertices are `< K`, and `isize::MAX` exactly
+when there is none. -/
+theorem fw_intermediate (g : WGraph) (hwf : g.WF) (hfun : g.Functional) (hnc : g.NoNegCycle)
+    {K : Nat} (hK : K ≤ g.n) {u v : Nat} (hu : u < g.n) (hv : v < g.n) :
+    (∀ d, get g.n (loopTo g.n (init g) K) u v = some d ↔ IsMinIn g K u v d) ∧
+    (get g.n (loopTo g.n (init g) K) u v = none ↔ ¬ ∃ wt, WalkIn g K u v wt) :=
+  (Inv.loopTo hnc (init_inv hwf hfun hnc) K hK).isMinIn hu hv
+
+theorem isMinIn_iff_isMinDist {g : WGraph} (hwf : g.WF) (u v : Nat) (d : Int) :
+    IsMinIn g g.n u v d ↔ IsMinDist g [u] v d := by
+  constructor
+  · rintro ⟨hw, hmin⟩
+    obtain ⟨k, hk⟩ := hw.toWWalk
+    refine ⟨⟨u, List.mem_singleton.mpr rfl, k, hk⟩, ?_⟩
+    intro s hs k' wt hwalk
+    cases List.mem_singleton.mp hs
+    exact hmin wt (WalkIn.ofWWalk hwf hwalk)
+  · rintro ⟨⟨s, hs, k, hk⟩, hmin⟩
+    cases List.mem_singleton.mp hs
+    refine ⟨WalkIn.ofWWalk hwf hk, ?_⟩
+    intro wt hw
+    obtain ⟨k', hk'⟩ := hw.toWWalk
+    exact hmin u (List.mem_singleton.mpr rfl) k' wt hk'
+
+theorem walkIn_iff_reach {g : WGraph} (hwf : g.WF) (u v : Nat) :
+    (∃ wt, WalkIn g g.n u v wt) ↔ WReachFrom g [u] v := by
+  constructor
+  · rintro ⟨wt, hw⟩
+    obtain ⟨k, hk⟩ := hw.toWWalk
+    exact ⟨u, List.mem_singleton.mpr rfl, k, wt, hk⟩
+  · rintro ⟨s, hs, k, wt, hk⟩
+    cases List.mem_singleton.mp hs
+    exact ⟨wt, WalkIn.ofWWalk hwf hk⟩
+
+/-- Exactness of the returned matrix. -/
+theorem fw_exact (g : WGraph) (hwf : g.WF) (hfun : g.Functional) (hnc : g.NoNegCycle)
+    {u v : Nat} (hu : u < g.n) (hv : v < g.n) :
+    (∀ d, get g.n (distances g) u v = some d ↔ IsMinDist g [u] v d) ∧
+    (get g.n (distances g) u v = none ↔ ¬ WReachFrom g [u] v) := by
+  obtain ⟨h1, h2⟩ := fw_intermediate g hwf hfun hnc (Nat.le_refl g.n) hu hv
+  exact ⟨fun d => (h1 d).trans (isMinIn_iff_isMinDist hwf u v d),
+    h2.trans (not_congr (walkIn_iff_reach hwf u v))⟩
+
+/-- Zero diagonal. -/
+theorem fw_diag (g : WGraph) (hwf : g.WF) (hfun : g.Functional) (hnc : g.NoNegCycle)
+    {u : Nat} (hu : u < g.n) : get g.n (distances g) u u = some 0 := by
+  have hinv := Inv.loopTo hnc (init_inv hwf hfun hnc) g.n (Nat.le_refl _)
+  obtain ⟨x, hx, hle⟩ := hinv.2 u u hu hu 0 (.nil u) 0 rfl
+  have h0 : 0 ≤ x := (hinv.1.2 u u hu hu x hx).closed_nonneg hnc
+  have : x = 0 := by omega
+  rw [← this]; exact hx
+
+/-- Row `u` equals any exact single-source distance vector from `u` — the spec-level form of
+"row `s` equals BellmanFordMoore from `s` and, on non-negative weights, Dijkstra from `s`"
+(both are characterised by `IsMinDist` in C07 / C03; agreement with the REAL implementations
+is checked by the harness on every generated case). -/
+theorem fw_row_eq_exact (g : WGraph) (hwf : g.WF) (hfun : g.Functional) (hnc : g.NoNegCycle)
+    {u : Nat} (hu : u < g.n) (r : List (Option Int)) (hlen : r.length = g.n)
+    (hr : ∀ x, x < g.n → ∀ d, r[x]? = some (some d) ↔ IsMinDist g [u] x d) :
+    row g.n (distances g) u = r := by
+  apply List.ext_getElem
+  · simp [row, hlen]
+  · intro x h1 h2
+    have hx : x < g.n := by simpa [row] using h1
+    have hex := (fw_exact g hwf hfun hnc hu hx).1
+    simp only [row, List.getElem_map, List.getElem_range]
+    cases hg : get g.n (distances g) u x with
+    | some d =>
+      have := (hr x hx d).mpr ((hex d).mp hg)
+      rw [List.getElem?_eq_getElem h2] at this
+      exact (Option.some.inj this).symm
+    | none =>
+      cases hrx : r[x] with
+      | none => rfl
+      | some d =>
+        have h3 : r[x]? = some (some d) := by rw [List.getElem?_eq_getElem h2, hrx]
+        have := (hex d).mpr ((hr x hx d).mp h3)
+        rw [hg] at this; cases this
+
+/-- The full statement holds. -/
+theorem fw_statement : Statement := by
+  intro g hwf hfun hnc u v hu hv
+  exact ⟨rfl, (fw_exact g hwf hfun hnc hu hv).1, (fw_exact g hwf hfun hnc hu hv).2,
+    fw_diag g hwf hfun hnc hu, fw_row_eq_exact g hwf hfun hnc hu⟩
+
+/-- The hypotheses `WF` and `Functional` are not assumptions about the inputs of the
+correspondence run: every description `[wi n arcs]` with heads in range (anything
+`add_arc_weighted` accepts) yields a model digraph that satisfies them, so the statement applies
+to every digraph the harness can build. -/
+theorem fw_desc_hyps (n : Nat) (arcs : List (Nat × Nat × Int)) (harcs : ∀ a ∈ arcs, a.2.1 < n) :
+    (WGraph.ofRows (wrowsOfArcs n arcs)).n = n ∧ (WGraph.ofRows (wrowsOfArcs n arcs)).WF ∧
+    (WGraph.ofRows (wrowsOfArcs n arcs)).Functional :=
+  ofRows_hyps n arcs harcs
+
+/-- `run` is `distances` on every digraph with at least one vertex (order 0 panics in
+`DistanceMatrix::new`). -/
+theorem fw_run_ok (g : WGraph) (hn : 0 < g.n) : run g = .ok (distances g) := by
+  simp [run, Nat.ne_of_gt hn]
+
+/-! ## Non-vacuity: the doctest digraph of `FloydWarshall` (negative arcs, a circuit
+`1 → 2 → 3 → 1` of weight 4, no negative circuit) meets all hypotheses. -/
+
+/-- Potentials certify the absence of negative circuits. -/
+theorem noNegCycle_of_potential (g : WGraph) (p : Nat → Int)
+    (h : ∀ u v w, g.A u v w → 0 ≤ w + p u - p v) : g.NoNegCycle := by
+  have key : ∀ u v k wt, WWalk g u v k wt → 0 ≤ wt + p u - p v := by
+    intro u v k wt hw
+    induction hw with
+    | nil => omega
+    | snoc _ a ih => have := h _ _ _ a; omega
+  rintro x ⟨k, wt, _, hw, hneg⟩
+  have := key x x k wt hw
+  omega
+
+def ex : WGraph := ⟨4, fun u => match u with
+  | 0 => [(2, -2)] | 1 => [(0, 4), (2, 3)] | 2 => [(3, 2)] | 3 => [(1, -1)] | _ => []⟩
+
+example : ex.WF := by
+  intro u v w h
+  change (v, w) ∈ ex.out u at h
+  show _ < 4 ∧ _ < 4
+  rcases u with _ | _ | _ | _ | u <;> simp [ex] at h <;> omega
+
+example : ex.Functional := by
+  intro u v w₁ w₂ h₁ h₂
+  change (v, w₁) ∈ ex.out u at h₁
+  change (v, w₂) ∈ ex.out u at h₂
+  rcases u with _ | _ | _ | _ | u <;> simp [ex] at h₁ h₂ <;> omega
+
+example : ex.NoNegCycle :=
+  noNegCycle_of_potential ex (fun u => match u with | 0 => 4 | 1 => 0 | 2 => 2 | 3 => 4 | _ => 0) (by
+    intro u v w h
+    change (v, w) ∈ ex.out u at h
+    rcases u with _ | _ | _ | _ | u <;> simp [ex] at h
+    · obtain ⟨rfl, rfl⟩ := h; decide
+    · rcases h with ⟨rfl, rfl⟩ | ⟨rfl, rfl⟩ <;> decide
+    · obtain ⟨rfl, rfl⟩ := h; decide
+    · obtain ⟨rfl, rfl⟩ := h; decide)
+
+/-- The matrix of the doctest (`dist[(0,1)] = -1`, … `dist[(3,0)] = 3`). -/
+example : distances ex =
+    [some 0, some (-1), some (-2), some 0,
+     some 4, some 0, some 2, some 4,
+     some 5, some 1, some 0, some 2,
+     some 3, some (-1), some 1, some 0] := by decide
+
+/-- An unreachable pair yields `none`. -/
+example : get 2 (distances ⟨2, fun u => if u = 0 then [(1, 5)] else []⟩) 1 0 = none := by decide
+
+end GraafVerif.C08
